@@ -130,7 +130,7 @@ class Recorder:
         return bool(cond)
 
     def inconclusive_(self, reason):
-        self.inconclusive.append(str(reason)[:400])
+        self.inconclusive.append(str(reason)[:3000])
 
     def result(self, wall):
         return {
@@ -401,7 +401,7 @@ def main(argv=None):
         return 1
     if inconcl:
         for x in inconcl[:10]:
-            print(f"INCONCLUSIVE property={cid} reason={x}")
+            print(f"INCONCLUSIVE property={cid} reason={x if os.environ.get('RV_VERBOSE') else x[:300]}")
         if os.environ.get("RV_VERBOSE"):
             for r in results:
                 if r["inconclusive"]:
